@@ -737,9 +737,11 @@ pub fn check_type(
                     },
                     None => {
                         // References to undefined objects are treated
-                        // as references to the null object.
+                        // as references to the null object (reached through
+                        // a reference, as a defined object would be).
                         let obj = o.place(PDFObjT::Null(()));
-                        state.return_check((Rc::new(obj), tc));
+                        let chk = Rc::new(TypeCheck::Rep(c.allow_indirect()));
+                        state.return_check((Rc::new(obj), chk));
                     },
                 }
             },
